@@ -56,7 +56,9 @@ def strategy(draw, tier="quick"):
     wmc = draw(st.booleans())
     bits = draw(st.sampled_from([1, 2, 3, 4, 5, 6, 7, 8, 8, 8]))
     wbounds = [ww + 1, ww + 1] + [1 << bits] * ww  # count, max_count selector, data
-    methods = {"read": [rw + 1], "peek": [], "write": wbounds, "clear": []}
+    # read(count): every value the count field can carry, also values above read_width when read_width + 1 is not a
+    # power of two (the statement defines the result as min(count, level, read_width))
+    methods = {"read": [1 << rw.bit_length()], "peek": [], "write": wbounds, "clear": []}
     pre = [
         {"read": None, "peek": [], "write": [draw(st.integers(0, b - 1)) for b in wbounds], "clear": None}
         for _ in range(draw(st.integers(0, rows + 1)))
